@@ -139,6 +139,12 @@ func runRecycled(c call) string {
 	}
 	arena.on, arena.off = true, 0
 	defer func() { arena.on = false }()
+	return runOwn(c)
+}
+
+// runOwn is run for sequential use: when the call has returned, its caller re-uses the buffers it had handed over
+func runOwn(c call) string {
+	defer reuseCopies()
 	return run(c)
 }
 
@@ -208,7 +214,7 @@ func TestProp_Concurrent(t *testing.T) {
 			res := make([][]string, n)
 			for i := range calls {
 				for _, c := range calls[i] {
-					res[i] = append(res[i], run(c))
+					res[i] = append(res[i], runOwn(c))
 				}
 			}
 			return res
@@ -232,6 +238,7 @@ func TestProp_Concurrent(t *testing.T) {
 		}
 		close(start)
 		wg.Wait()
+		reuseCopies()
 		runtime.GOMAXPROCS(old)
 		want = alone()
 		for i := range calls {
@@ -292,10 +299,10 @@ func TestProp_OrderIndependence(t *testing.T) {
 		}
 		first := make([]string, m)
 		for i, c := range calls {
-			first[i] = run(c)
+			first[i] = runOwn(c)
 		}
 		for w := rapid.IntRange(0, 5).Draw(t, "warmup"); w > 0; w-- {
-			run(genCall(t, all))
+			runOwn(genCall(t, all))
 		}
 		idx := make([]int, m)
 		for i := range idx {
@@ -320,7 +327,7 @@ func TestProp_OrderIndependence(t *testing.T) {
 			if recycle {
 				r = runRecycled(calls[i])
 			} else {
-				r = run(calls[i])
+				r = runOwn(calls[i])
 			}
 			if r != first[i] {
 				t.Fatalf("call %d: %s\nin the first order:   %s\nin the permuted order: %s\norder %v", i, calls[i], first[i], r, order)
@@ -507,14 +514,14 @@ func TestProp_HistoryProbe(t *testing.T) {
 		baseMu.Lock()
 		for i, c := range probes {
 			if _, ok := baseline[keys[i]]; !ok {
-				baseline[keys[i]] = run(c)
+				baseline[keys[i]] = runOwn(c)
 				fresh++
 			}
 		}
 		baseMu.Unlock()
 		var key strings.Builder
 		for _, c := range poison {
-			run(c)
+			runOwn(c)
 			fmt.Fprintf(&key, "%s;", c)
 		}
 		for i, c := range probes {
@@ -592,7 +599,7 @@ func TestChildProbes(t *testing.T) {
 	probes := probeList(lang)
 	res := make([]string, len(probes))
 	for _, i := range probeOrder(len(probes), mode, seed) {
-		res[i] = run(call{e: pe, in: []byte(probes[i]), prog: []byte{byte(opt)}})
+		res[i] = runOwn(call{e: pe, in: []byte(probes[i]), prog: []byte{byte(opt)}})
 	}
 	for i, r := range res {
 		fmt.Printf("PROBE %d %s\n", i, r[:16])
@@ -635,7 +642,7 @@ func TestProp_FreshProcess(t *testing.T) {
 			t.Fatalf("VERIF-INFRA child reported %d of %d probes\n%.2000s", len(child), len(probes), out)
 		}
 		for i, p := range probes {
-			r := run(call{e: pe, in: []byte(p), prog: []byte{byte(opt)}})
+			r := runOwn(call{e: pe, in: []byte(p), prog: []byte{byte(opt)}})
 			if r[:16] != child[i] {
 				t.Fatalf("%s(%q, option %d): this process (probes in list order) gets %s, a fresh process that meets the probes in %s order gets digest %s", entries[pe].name, p, opt, r, mode, child[i])
 			}
